@@ -78,6 +78,7 @@ def step (_ : Unit) (line : String) : Unit × String :=
           | some (.ok id) => s!"ok id={showId id}"
           | some (.error e) => s!"err {cidErrKind e}"
       | _, _ => "bad-op"
+    | "reset" :: _ => "ok"
     | _ => "bad-op"
   ((), out)
 
@@ -102,6 +103,7 @@ def spec (_ : Unit) (op : String) (obs : String) : String :=
   let ws := words op
   let os := words obs
   match ws with
+  | "reset" :: _ => "specskip"
   | "new" :: _ =>
     match (arg? ws "kind").bind parseKind, natArg? ws "h", natArg? ws "row", natArg? ws "col", hexArg? ws "ns" with
     | some k, some h, some r, some c, some ns =>
